@@ -68,11 +68,11 @@ func (s *Server) RogueDial(nodeName, kind string, opt ...nodeenrollment.Option) 
 					ExtKeyUsage: []x509.ExtKeyUsage{x509.ExtKeyUsageServerAuth}, KeyUsage: x509.KeyUsageDigitalSignature | x509.KeyUsageCertSign, NotBefore: time.Now().Add(-time.Minute), NotAfter: time.Now().Add(time.Hour)}
 				der, _ := x509.CreateCertificate(rand.Reader, tpl, tpl, pub, priv)
 				chain = [][]byte{der}
-			case "staleNonce", "noNonce":
+			case "staleNonce", "noNonce", "staleNonceExtraCert":
 				other := make([]byte, nodeenrollment.NonceSize)
 				rand.Read(other)
 				req := &types.GenerateServerCertificatesRequest{CertificatePublicKeyPkix: n.Creds.CertificatePublicKeyPkix, SkipVerification: true}
-				if kind == "staleNonce" {
+				if kind != "noNonce" {
 					req.Nonce = other
 				}
 				resp, err := nodetls.GenerateServerCertificates(w.Ctx, w.Inner, req, w.StorageOpts()...)
@@ -82,6 +82,15 @@ func (s *Server) RogueDial(nodeName, kind string, opt ...nodeenrollment.Option) 
 				k, _ := x509.ParsePKCS8PrivateKey(resp.CertificatePrivateKeyPkcs8)
 				key = k
 				chain = [][]byte{resp.CertificateBundles[0].CertificateDer, resp.CertificateBundles[0].CaCertificateDer}
+				if kind == "staleNonceExtraCert" {
+					// a genuine certificate minted for ANOTHER nonce, followed by a throw-away certificate that carries the
+					// fresh nonce (read from the plaintext ClientHello): chain and nonce satisfied by different certificates
+					jpub, jpriv, _ := ed25519.GenerateKey(rand.Reader)
+					tpl := &x509.Certificate{SerialNumber: big.NewInt(11), Subject: pkix.Name{CommonName: "junk"}, DNSNames: []string{nonceName, nodeenrollment.CommonDnsName},
+						ExtKeyUsage: []x509.ExtKeyUsage{x509.ExtKeyUsageServerAuth}, KeyUsage: x509.KeyUsageDigitalSignature, NotBefore: time.Now().Add(-time.Minute), NotAfter: time.Now().Add(time.Hour)}
+					junk, _ := x509.CreateCertificate(rand.Reader, tpl, tpl, jpub, jpriv)
+					chain = append(chain, junk)
+				}
 			case "wrongEku", "nextRootNotYetValid":
 				if rerr != nil {
 					return nil, rerr
